@@ -90,7 +90,8 @@ def serialize_date(dt):
         return text_(dt)
 
     if isinstance(dt, timedelta):
-        dt = _now() + dt
+        # _now() is naive local wall-clock time; name the instant in UTC
+        dt = _now().astimezone(UTC) + dt
 
     if isinstance(dt, datetime):
         # an aware datetime names an instant: convert it to UTC (a naive
